@@ -48,3 +48,30 @@ Theorem C10_source_contract : forall l len, g_line_contract l len = Ok (line_con
 Proof. exact tie_line_contract. Qed.
 Check C10_source_contract : forall l len, g_line_contract l len = Ok (line_contract len l).
 Print Assumptions C10_source_contract.
+
+From Avt Require Import Gen.RestFns Proofs.RestTie.
+(** SOURCE TIE BY PROOF (translate/rest2coq.py -> Gen/RestFns.v): the Rust function is REGENERATED on every run (u8/u16/u32/char as N with exact casts, isize as Z with guards on `as usize`, loops as folds or fuelled fixpoints, every Rust panic condition as a guard) and the hand-written model function is proved equal to it (=~ : equal up to the panic-site number) *)
+(** Buffer::resize regenerated, with its callees reflow() and relative_position() ALSO the regenerated ones: nothing hand-written between the Rust text and buf_resize *)
+Theorem C10_source_resize : forall b nc nr cc cr, g_buffer_resize g_reflow_at g_relative_position_at b nc nr (cc, cr) =~ buf_resize b nc nr cc cr.
+Proof. exact tie_buffer_resize_closed. Qed.
+Check C10_source_resize : forall b nc nr cc cr, g_buffer_resize g_reflow_at g_relative_position_at b nc nr (cc, cr) =~ buf_resize b nc nr cc cr.
+Print Assumptions C10_source_resize.
+
+(** Reflow::next + reflow() regenerated as the fused collect loop *)
+Theorem C10_source_reflow : forall ls c, g_reflow_reflow (reflow_fuel ls) ls c =~ reflowM ls c.
+Proof. exact tie_reflow. Qed.
+Check C10_source_reflow : forall ls c, g_reflow_reflow (reflow_fuel ls) ls c =~ reflowM ls c.
+Print Assumptions C10_source_reflow.
+
+(** Buffer::logical_position regenerated *)
+Theorem C10_source_logical_position : forall b pc pr c r, g_buffer_logical_position b (pc, pr) c r =~ logical_position b pc pr c r.
+Proof. exact tie_buffer_logical_position. Qed.
+Check C10_source_logical_position : forall b pc pr c r, g_buffer_logical_position b (pc, pr) c r =~ logical_position b pc pr c r.
+Print Assumptions C10_source_logical_position.
+
+(** Buffer::relative_position regenerated (two while loops) *)
+Theorem C10_source_relative_position : forall b pc pr c r, g_buffer_relative_position (S (length (lines b))) (S (S (pc + length (lines b)))) b (pc, pr) c r =~ relative_position (lines b) pc pr c r.
+Proof. exact tie_buffer_relative_position. Qed.
+Check C10_source_relative_position : forall b pc pr c r, g_buffer_relative_position (S (length (lines b))) (S (S (pc + length (lines b)))) b (pc, pr) c r =~ relative_position (lines b) pc pr c r.
+Print Assumptions C10_source_relative_position.
+
